@@ -20,8 +20,9 @@ CHECKS = {
         text='Machine-checked theorems: consecutive subintervals map to face-adjacent cells for every density (induction over digit strings from finite '
              'entry/exit-corner lemmas), nesting of the grids over any number of levels, and the Hoelder bound at cell level '
              '(squared distance < (N+3) 4^(m-k) whenever depth-k ancestors coincide or are consecutive). Same ties as C07; direct oracles check adjacency/nesting '
+             'The inequality itself over R (C08_holder_inequality): ||y(x\')-y(x\'\')|| <= 2 sqrt(N+3) |x\'-x\'\'|^(1/N) S for all points at least 2^(-N m) apart, any box with sides <= S. Same ties as C07; direct oracles check adjacency/nesting '
              'exhaustively on small grids and at depth N*m=50 around coarse boundaries, and the real-valued inequality on random pairs.',
-        design='5 C08', note=TB + 'the last arithmetic step from the cell-level bound to the real-valued inequality with |dx|^(1/N) is checked numerically, not proved.',
+        design='5 C08', note=TB + 'standard-library real-number axioms for the real-valued inequality; binary64 rounding of the box map is tied by correspondence, not proved.',
         technique='Rocq proof (induction on digit strings, finite local lemmas by vm_compute) + correspondence'),
     'C09': dict(
         text='Machine-checked theorems: the model of GetInverseImage inverts the cell map for every density (uncell . cell = id and cell . uncell = id), '
@@ -75,8 +76,8 @@ CHECKS.update({
     'C18': dict(
         text='Metadata: constructors of the parametric families modelled and proved well-formed for every dimension n >= 1; for the finite families every instance is constructed and the dump is checked by the kernel (forallb wf_meta). '
              'Tables: per row, regenerated from the source on every run: tabulated minimum and maximum values within 1e-4 (value at the tabulated location + global bound), derivative sign on both sides of each tabulated extremiser at 1e-4 of the range and separation beyond 0.5%, '
-             '|f\'| <= 1.001 L on the whole range and a witness with |f\'| >= 0.999 L, f\' being the derivative by the family theorem (hill_derive / shekel_derive) and the reflexivity tie. quick = seeded rows, thorough = all 2 x 1000.',
-        design='5 C18', note=TB + 'coq-interval + Coquelicot + real-number axioms; the final mean-value step combining the location lemmas is not restated in Coq.',
+             'every global extremiser within 1e-4 of the range of the tabulated one (mean value theorem, Problems/Locate.v), |f\'| <= 1.001 L on the whole range (hence Lipschitz) and a witness with |f\'| >= 0.999 L, f\' being the derivative by the family theorem (hill_derive / shekel_derive) and the reflexivity tie. quick = seeded rows, thorough = all 2 x 1000.',
+        design='5 C18', note=TB + 'coq-interval + Coquelicot + real-number axioms; the location and Lipschitz statements are derived per row from the interval lemmas by the mean-value theorems of Problems/Locate.v.',
         technique='Rocq proof: kernel-evaluated metadata predicate + per-row interval proofs generated from the tables'),
     'C05': dict(
         text='Theorems: every evolvent image lies strictly inside any box lower<upper for N in 2..5 and every density (N=1 affine); for ANY local optimiser that respects the bounds it is given, '
@@ -109,12 +110,13 @@ CHECKS.update({
         design='5 C19', note=TB + 'depq.DEPQ (third party) modelled as a stable descending list with drop-last bounding; links are list order in the model and checked on the real objects by the oracle.',
         technique='Rocq proof by induction over operation sequences + operation-sequence correspondence'),
     'C01': dict(
-        text='Theorems over the reals for N = 1 (AGP/Optimality.v, on the same generic model of the method as C02, instantiated with R): for ANY L-Lipschitz objective phi on the unit segment, '
+        text='Theorems over the reals, on the same generic model of the method as C02 instantiated with R. N = 2..5 (AGP/OptimalityBox.v): for ANY L-Lipschitz objective on ANY box with sides <= S, any density m >= 1, r > 1, eps: if the run through the evolvent stops by accuracy and '
+             'r*M >= K_N*L*S then best - f(Y) < (r*M/2)*eps + L*S*2^-m*(sqrt(N+3)+sqrt(N)/2) for every Y of the box (covering argument in the Hoelder metric + Hoelder inequality, box containment and density of the evolvent images). N = 1 (AGP/Optimality.v): for ANY L-Lipschitz objective phi on the unit segment, '
              'any r > 1 and eps, if the run driven by phi stops by accuracy and r*M >= 2L for the estimate M in force when the last interval was selected, then best - min phi < (r*M/2)*eps; '
              'corollary for flat objectives (2L <= r) without any condition; per-interval lower bound from the characteristic. The literal reading with the FINAL M is refuted by a kernel-evaluated '
              'witness over Q (AGP/Refuted.v) which the check replays on the real implementation (known finding F6). Tie as C02 (generated formulas, skeletons, lock-step replay); search: cone objectives '
              'with known minimum and Lipschitz constant, N = 1..3, flat and steep, bound evaluated with M at selection time.',
-        design='5 C01', note=SOLVER_NOTE + ' N >= 2 (composition with the evolvent Hoelder bound and the grid term) is not formalised: partial; the oracle covers N = 2, 3.',
+        design='5 C01', note=SOLVER_NOTE + ' Theorems are over R with M at selection time; the reading with the final M is refuted and recorded as finding F6.',
         technique='Rocq proof over R of the 1-D certificate (covering argument on the model shared with C02) + refutation witness by vm_compute + lock-step correspondence + search with known-minimum objectives'),
     'C02': dict(
         text='Theorem (Coq, generic numeric type): in every state reachable from the initial one by any number of iterations under ANY stream of objective values, '
